@@ -38,7 +38,7 @@ Print Assumptions version_extract_digits.
 
 (* dec is a non-empty string of ASCII digits whose value is n *)
 Theorem dec_is_digits : forall n, digits (dec n) /\ digits_val (dec n) 0 = Some n.
-Proof. intros n. split; [apply dec_digits | apply digits_val_dec]. Qed.
+Proof. exact dec_is_digits_lemma. Qed.
 Print Assumptions dec_is_digits.
 
 (* str::parse::<i32>() on what the scanner can produce (digit strings and, between consecutive
